@@ -161,6 +161,7 @@ class _Sim(object):
         self.nested_texts = {}
         self.initial_root_handlers = None
         self.harness_errors = []
+        self.recorders = []
         if world:
             for k, ln in world["lines"].items():
                 if "#" in k or k.endswith(".BG"):
@@ -288,7 +289,7 @@ class _Sim(object):
             if a == "print":
                 m = self.next_marker(act["stream"], scen_id, ev)
                 stream = sys.stdout if act["stream"] == "stdout" else sys.stderr
-                stream.write(m + "\n")
+                stream.write(m + act.get("text", "") + "\n")
                 ev["did"].append(["print", act["stream"], m])
             elif a == "log":
                 m = self.next_marker("log", scen_id, ev)
@@ -614,6 +615,65 @@ SIM = _Sim()
 
 
 # ---------------------------------------------------------------------------
+# recording formatter (C15): logs every callback with the statuses visible then
+# ---------------------------------------------------------------------------
+def make_rec_formatter_class():
+    from behave.formatter.base import Formatter
+
+    class RecFormatter(Formatter):
+        name = "rec"
+        description = "simulator recording formatter"
+
+        def __init__(self, stream_opener, config):
+            super(RecFormatter, self).__init__(stream_opener, config)
+            self.log = []
+            SIM.recorders.append(self)
+            self.stream = self.open()
+
+        def _rec(self, cb, **kw):
+            kw["cb"] = cb
+            kw["seq"] = SIM.seq
+            self.log.append(kw)
+
+        def uri(self, uri):
+            self._rec("uri", uri=str(uri).replace(os.sep, "/"))
+
+        def feature(self, feature):
+            self._rec("feature", id=SIM.elem_id(feature), name=feature.name)
+
+        def rule(self, rule):
+            self._rec("rule", id=SIM.elem_id(rule), name=rule.name)
+
+        def background(self, background):
+            self._rec("background", line=background.line, nsteps=len(background.steps))
+
+        def scenario(self, scenario):
+            self._rec("scenario", id=SIM.elem_id(scenario), name=scenario.name,
+                      tags=[str(t) for t in scenario.tags])
+
+        def step(self, step):
+            self._rec("step", name=step.name, line=step.line, kw=step.keyword)
+
+        def match(self, match):
+            loc = getattr(match, "location", None)
+            args = getattr(match, "arguments", None)
+            self._rec("match", has_location=bool(loc),
+                      nargs=(len(args) if args is not None else None))
+
+        def result(self, step):
+            self._rec("result", name=step.name, line=step.line, status=step.status.name)
+
+        def eof(self):
+            self._rec("eof")
+
+        def close(self):
+            self._rec("close")
+            self.stream.write(u"rec: %d callbacks\n" % len(self.log))
+            self.close_stream()
+    return RecFormatter
+
+
+# ---------------------------------------------------------------------------
 # generated user code
 # ---------------------------------------------------------------------------
 def render_environment(world):
@@ -842,7 +902,7 @@ def collect_artifacts(root):
     return arts
 
 
-def run_world(world, root, extra_formatters=None, keep_model=False):
+def run_world(world, root, extra_formatters=None, keep_model=False, post=None):
     """Run one world through the real behave in-process. Returns History dict."""
     import behave.model
     import behave.reporter.summary
@@ -881,6 +941,9 @@ def run_world(world, root, extra_formatters=None, keep_model=False):
             os.environ.pop(v, None)
         os.environ["COLUMNS"] = "80"
         reset_behave_globals(world)
+        if any(f[0] == "rec" for f in world["cfg"]["formatters"]):
+            from behave.formatter import _registry as _freg
+            _freg.register_as("rec", make_rec_formatter_class())
         pre = None
         if world["cfg"].get("pre_handler"):
             pre = PreHandler()
@@ -900,7 +963,14 @@ def run_world(world, root, extra_formatters=None, keep_model=False):
             config = Configuration(argv)
             if extra_formatters:
                 extra_formatters(config)
-            hist["rc"] = run_behave(config, runner_class=SimRunner)
+            try:
+                hist["rc"] = run_behave(config, runner_class=SimRunner)
+            finally:
+                if post is not None and SIM.runner is not None:
+                    try:
+                        hist["post"] = post(SIM.runner, config)
+                    except Exception as e:      # the post-probe itself must not mask the run
+                        hist["post_error"] = "%s: %s" % (type(e).__name__, e)
         except (ConfigError, TagExpressionError) as e:
             hist["rc"] = 1
             hist["config_error"] = "%s: %s" % (type(e).__name__, e)
@@ -917,6 +987,7 @@ def run_world(world, root, extra_formatters=None, keep_model=False):
                                "frames": frames[-12:]}
             hist["rc"] = 1
     finally:
+        hist["std_after"] = [sys.stdout is tty_out, sys.stderr is tty_err]
         sys.stdout, sys.stderr = old_stdout, old_stderr
         patches.undo()
         os.chdir(old_cwd)
@@ -944,6 +1015,7 @@ def run_world(world, root, extra_formatters=None, keep_model=False):
     hist["fired"] = dict(SIM.fired)
     hist["sim_seconds"] = clock.elapsed()
     hist["clock_jumps"] = clock.jumps
+    hist["rec_logs"] = [r.log for r in SIM.recorders]
     if keep_model:
         hist["_runner"] = runner
     # post-run logging state (C18)
